@@ -9,7 +9,7 @@ from .instr import isa, code, arg, V, L, vrange, InstrShape
 from .isa_templates import regs_set, REG
 
 ID = 'C13'
-BUDGET_S = {'quick': 170, 'thorough': 1800}
+BUDGET_S = {'quick': 170, 'thorough': 3600}
 SHAPE_WALL_S = {'quick': 100, 'thorough': 600}
 FAMILY = ('PIPE: ISA definitions in which several variants / specific operand lists / operand-set members accept the same '
           'operand text; the opcode and operand-code value of every alternative is a distinct unconstrained symbol, so '
@@ -338,7 +338,7 @@ def random_shapes(tier, seed):
     import random
     rnd = random.Random(1300 + seed)
     S = []
-    for i in range(60 if tier == 'quick' else 1500):
+    for i in range(60 if tier == 'quick' else 4000):
         kind, sid, cfg, stmt = random_ambiguous(rnd, f'{seed}.{i}')
         if kind == 'reject':
             S.append(RejectShape(sid, config=cfg, stmt={'mnemonic': 'amb', 'text': stmt, 'uses': []}, props=['C13']))
